@@ -424,3 +424,37 @@ func everyIteration(o *an.Obl, f *an.Func, loopRe string, sites []an.Site, what 
 		o.FailAt(f.ID+"#iteration-skips-"+what, f.Where(head.Pos()), "an iteration of the loop over %s can complete without %s", f.Canon(head.Node.(*ast.RangeStmt).X), what)
 	}
 }
+
+// everyIterationOr is everyIteration where an iteration may also skip the
+// sites through an edge establishing the given fact.
+func everyIterationOr(o *an.Obl, f *an.Func, loopRe string, sites []an.Site, skip an.Fact, what string) {
+	re := regexp.MustCompile(loopRe)
+	var head *flow.Vertex
+	for _, v := range f.Graph().V {
+		if rs, ok := v.Node.(*ast.RangeStmt); ok && v.Kind == flow.KRange && re.MatchString(f.Canon(rs.X)) {
+			head = v
+		}
+	}
+	if head == nil {
+		o.FailAt(f.ID+"#loop-"+what, f.Where(f.Body.Pos()), "cannot find the loop over %s in %s", loopRe, f.ID)
+		return
+	}
+	stop := map[*flow.Vertex]bool{head: true}
+	for _, s := range sites {
+		stop[s.V] = true
+	}
+	var body *flow.Vertex
+	for _, e := range head.Out {
+		if e.Kind == flow.ERangeIn {
+			body = e.To
+		}
+	}
+	cut := f.EdgesOf(skip)
+	o.Site("%s: every iteration of the loop at %s passes %s unless %s", f.ID, f.Where(head.Pos()), what, skip.Desc)
+	if body == nil || (stop[body] && body != head) {
+		return
+	}
+	if f.Graph().Reach(body, cut, stop)[head] {
+		o.FailAt(f.ID+"#iteration-skips-"+what, f.Where(head.Pos()), "an iteration of the loop over %s can skip %s other than by %s", f.Canon(head.Node.(*ast.RangeStmt).X), what, skip.Desc)
+	}
+}
